@@ -12,8 +12,8 @@ pub fn expected(n: &MNode, prof: &Profile) -> f64 {
     match n {
         MNode::T(x) => *x,
         MNode::C { outs, .. } => {
-            let tot: f64 = outs.iter().map(|(_, w, _)| *w).sum();
-            outs.iter().map(|(_, w, c)| w / tot * expected(c, prof)).sum()
+            let q = crate::model::normalised(&outs.iter().map(|(_, w, _)| *w).collect::<Vec<_>>());
+            outs.iter().zip(&q).map(|((_, _, c), q)| q * expected(c, prof)).sum()
         }
         MNode::P { player, info, acts } => {
             if acts.len() == 1 {
@@ -37,8 +37,8 @@ fn expand<'a>(n: &'a MNode, w: f64, me: usize, prof: &Profile, out: &mut Group<'
     match n {
         MNode::T(x) => w * if me == 0 { *x } else { -*x },
         MNode::C { outs, .. } => {
-            let tot: f64 = outs.iter().map(|(_, q, _)| *q).sum();
-            outs.iter().map(|(_, q, c)| expand(c, w * q / tot, me, prof, out)).sum()
+            let qs = crate::model::normalised(&outs.iter().map(|(_, q, _)| *q).collect::<Vec<_>>());
+            outs.iter().zip(&qs).map(|((_, _, c), q)| expand(c, w * q, me, prof, out)).sum()
         }
         MNode::P { player, info, acts } => {
             if *player == me {
